@@ -7,10 +7,11 @@ from fractions import Fraction
 from harness.core import Rng, gz, glist, gopt, Dec, num_close
 
 PID = "C01"
-VO = ["theories/Metrics/Disagg.vo", "theories/Metrics/Disagg_proofs.vo", "theories/Base/Flat.vo"]
+VO = ["theories/Metrics/Disagg.vo", "theories/Metrics/Disagg_proofs.vo", "theories/Base/Flat.vo",
+      "theories/Metrics/Disagg_ext.vo", "theories/Metrics/Disagg_ext_proofs.vo"]
 PROPS_FILES = ["props/C01.v"]
-TRANSLATORS = []
-REQUIRES = ["From FL Require Import Num ListX Flat Disagg."]
+TRANSLATORS = ["t_disagg"]
+REQUIRES = ["From FL Require Import Num ListX Flat Disagg Disagg_ext."]
 SHARD = 40
 CHUNK = 8
 CASE_TIMEOUT = 120
@@ -23,13 +24,23 @@ LEVEL_TEXT = ("Proof (Coq): for the frame MetricFrame.__init__ builds (named col
               "index key; the index is the observed keys (one grouping column) or the product of per-column observed "
               "values (several), duplicate-free, covers every row, and a key without rows holds NaN. Hypothesis: "
               "generated column names pairwise distinct (shown necessary: C01_param_collision_refuted = finding F8). "
-              "Tie to the code: differential run of the same Gallina definitions against MetricFrame on generated "
-              "datasets with an exact row fingerprint metric.")
+              "_extract_result (callable-vs-dict unwrapping) only selects: column 0 with the same index / the single "
+              "entry, never a changed value (C01_extract_preserves, C01_callable_*); feature names are the given "
+              "name (Series name, DataFrame column, dict key) or base ++ decimal position, generated names pairwise "
+              "distinct (C01_feature_names_spec). Tie to the code: (a) translator t_disagg regenerates from the "
+              "source the no-grouping test, the re-index test `len(grouping_names) > 1`, the index levels, the "
+              "absence of a reindex fill value, the positional / keyword argument assembly of "
+              "AnnotatedMetricFunction.__call__, the grouping names of overall / by_group, _extract_result and the "
+              "name bases; C01_src_* state that the pipeline with these regenerated parts IS Disagg.apply_functions; "
+              "(b) differential run of the same Gallina definitions against MetricFrame on generated "
+              "datasets with an exact row fingerprint metric, from container TAGS (names, unwrapped result shapes "
+              "and Series names are the model's).")
 LEVEL_NOTE = ("Trusted: Coq kernel + vm_compute; the model of pandas DataFrame column assignment / groupby / reindex "
-              "/ np.unique (Disagg.set_col, row_keys, kuniq, product o zuniq) is tied by correspondence, not "
-              "verified; feature-name generation and _extract_result are checked by correspondence only.")
+              "/ np.unique (Disagg.set_col, row_keys, kuniq, product o zuniq) and of .iloc[:, 0] / .iloc[0] "
+              "(Disagg_ext.iloc_col0 / iloc_row0) is tied by correspondence, not verified.")
 TECHNIQUE = "Coq proof about an executable model of the disaggregation pipeline + differential model/implementation run"
 TRUSTED = ["Coq 8.16.1 kernel and vm_compute", "harness/props/c01.py (generators, metric callables, comparison)",
+           "translators/t_disagg.py (Python ast -> Gallina for the grouping / call / unwrapping decisions)",
            "pandas groupby/reindex, numpy unique (modelled)", "no axioms (Print Assumptions: closed)"]
 ASSUMPTIONS = ["category codes are assigned to feature values in their sort order (np.unique / groupby order)",
                "generated parameter column names f'{metric}_{param}' are pairwise distinct and distinct from "
@@ -278,12 +289,29 @@ def impl(case):
     galph = [f["alpha"] for f in case["cf"]] + [f["alpha"] for f in case["sf"]]
     calph = [f["alpha"] for f in case["cf"]]
     bg = mf.by_group
+    shapes = {}
+    for obs, obj, alph in (("by_group", mf.by_group, galph), ("overall", mf.overall, calph)):
+        try:
+            if isinstance(obj, pd.DataFrame):
+                shapes[obs] = {"type": "DataFrame", "columns": [str(c) for c in obj.columns]}
+            elif isinstance(obj, pd.Series):
+                if alph and list(obj.index) != names:      # indexed by group keys
+                    shapes[obs] = {"type": "Series", "name": None if obj.name is None else str(obj.name),
+                                   "index_names": list(obj.index.names),
+                                   "values": [[_key(idx, alph), _cell(v)] for idx, v in obj.items()]}
+                else:                                      # indexed by metric name
+                    shapes[obs] = {"type": "SeriesByMetric", "index": [str(k) for k in obj.index]}
+            else:
+                shapes[obs] = {"type": "scalar", "value": _cell(obj)}
+        except Exception as e:  # noqa: an unexpected shape is reported by compare, not as a harness crash
+            shapes[obs] = {"type": f"unrecognised {type(obj).__name__} ({type(e).__name__}: {e})"}
     if isinstance(bg, pd.Series):
         bg = bg.to_frame(name=names[0])
     res = {"by_group": [[_key(idx, galph), {c: _cell(row[c]) for c in bg.columns}] for idx, row in bg.iterrows()],
            "by_group_index_names": list(bg.index.names), "by_group_columns": [str(c) for c in bg.columns],
            "sensitive_levels": list(mf.sensitive_levels),
            "control_levels": None if mf.control_levels is None else list(mf.control_levels)}
+    res["shapes"] = shapes
     res["second_construction_same"] = same
     res["sample_params_untouched"] = sp_keys_before == sp_keys_after
     ov = mf.overall
@@ -295,7 +323,11 @@ def impl(case):
     else:
         if isinstance(ov, pd.Series):
             ov = ov.to_frame(name=names[0])
-        res["overall"] = [[_key(idx, calph), {c: _cell(row[c]) for c in ov.columns}] for idx, row in ov.iterrows()]
+        try:
+            res["overall"] = [[_key(idx, calph), {c: _cell(row[c]) for c in ov.columns}] for idx, row in ov.iterrows()]
+        except ValueError:     # not indexed by the control-feature levels: reported by compare (shape + oracle)
+            res["overall"] = [[[f"unrecognised index entry {idx!r}"], {str(c): _cell(row[c]) for c in ov.columns}]
+                              for idx, row in ov.iterrows()]
     return res
 
 
@@ -308,18 +340,38 @@ def _given(container, names, ncol):
     return [None] * ncol
 
 
+def _ctag(container, names, ncol):
+    """container kind -> Disagg_ext.fcontainer (the MODEL decides which names are given / generated)"""
+    if container == "list":
+        return "FList"
+    if container == "ndarray":
+        return "FArray1"
+    if container == "ndarray2d":
+        return f"(FArray2 {ncol}%nat)"
+    if container == "series":
+        return "(FSeries None)"
+    if container == "series_named":
+        return f"(FSeries (Some {_gname(names[0])}))"
+    if container == "dataframe":
+        return f"(FFrame {glist([_gname(x) for x in names[:ncol]])})"
+    if container == "dict":
+        return f"(FDict {glist([_gname(x) for x in names[:ncol]])})"
+    raise ValueError(container)
+
+
 def term(case, out):
     yt = [2 * i + l for i, l in enumerate(case["label"])]
     prefix = (lambda m: "None") if case["callable"] else (lambda m: m["name"])
     ms = glist([f"(Build_metric_spec Z {_gname(m['name'])} {_gname(prefix(m))} "
                 + glist([f"({_gname(p)}, {glist(v, gz)})" for p, v in m["params"]]) + ")" for m in case["metrics"]])
     kinds = glist([f"({_gname(m['name'])}, {gz(KINDS[m['kind']])})" for m in case["metrics"]])
-    sfg = glist([gopt(g, _gname) for g in _given(case["sf_container"], case["sf_names"], len(case["sf"]))])
-    cfg = glist([gopt(g, _gname) for g in _given(case["cf_container"], case["cf_names"], len(case["cf"]))])
+    sft = _ctag(case["sf_container"], case["sf_names"], len(case["sf"]))
+    cft = f"(Some {_ctag(case['cf_container'], case['cf_names'], len(case['cf']))})" if case["cf"] else "None"
     sfc = glist([glist(f["codes"], gz) for f in case["sf"]])
     cfc = glist([glist(f["codes"], gz) for f in case["cf"]])
-    return (f"run_metric_frame {kinds} {glist(yt, gz)} {glist(case['y_pred'], gz)} {ms} {_gname(SF_BASE)} "
-            f"{_gname(CF_BASE)} {sfg} {cfg} {sfc} {cfc}")
+    cal = "true" if case["callable"] else "false"
+    return (f"run_metric_frame_x {kinds} {cal} {glist(yt, gz)} {glist(case['y_pred'], gz)} {ms} {sft} {cft} "
+            f"{sfc} {cfc}")
 
 
 def _dstr(d):
@@ -344,14 +396,70 @@ def _dtable(d):
     return d.opt(lambda: d.list(lambda: [d.list(d.z), d.opt(row)]))
 
 
+def _dextracted(d):
+    def one():
+        t = d.z()
+        if t == 0:
+            return {"kind": "same", "table": _dtable(d)}
+        if t == 1:
+            nm = _dstr(d)
+            def entry():     # None = NaN row; "KeyError" = the call raised (never in a finished frame)
+                c = d.opt(lambda: _dcell(d))
+                return "KeyError" if c is None else c
+            col = d.list(lambda: [d.list(d.z), d.opt(entry)])
+            return {"kind": "column", "name": nm, "values": col}
+        if t == 2:
+            return {"kind": "scalar", "value": d.opt(lambda: _dcell(d))}
+        return {"kind": "IndexError"}
+    return d.opt(one)
+
+
 def decode(case, zs):
     d = Dec(zs)
     bg = _dtable(d)
     ov = _dtable(d)
     sfn = d.list(lambda: _dstr(d))
     cfn = d.list(lambda: _dstr(d))
+    xbg = _dextracted(d)
+    xov = _dextracted(d)
     d.done()
-    return {"by_group": bg, "overall": ov, "sensitive_levels": sfn, "control_levels": cfn}
+    return {"by_group": bg, "overall": ov, "sensitive_levels": sfn, "control_levels": cfn,
+            "extracted_by_group": xbg, "extracted_overall": xov}
+
+
+def _shape_diff(case, obs, shape, x, index_names):
+    """user-visible result (after _extract_result) against Disagg_ext.extract_result; None = equal"""
+    if x is None:
+        return "model raised KeyError"
+    if x["kind"] == "same":
+        want = "DataFrame" if (obs == "by_group" or case["cf"]) else "SeriesByMetric"
+        if shape["type"] != want:
+            return f"implementation returns a {shape['type']}, model: the underlying {want} unchanged"
+        names = [m["name"] for m in case["metrics"]]
+        got = shape.get("columns", shape.get("index"))
+        if got != names:
+            return f"metric labels {got} vs {names}"
+        return None
+    if x["kind"] == "column":
+        if shape["type"] != "Series":
+            return f"implementation returns a {shape['type']}, model: column 0 as a Series"
+        if shape["name"] != x["name"]:
+            return f"Series name {shape['name']!r} vs model {x['name']!r}"
+        if shape["index_names"] != index_names:
+            return f"index names {shape['index_names']} vs model {index_names}"
+        if [k for k, _ in shape["values"]] != [k for k, _ in x["values"]]:
+            return f"index {[k for k, _ in shape['values']]} vs model {[k for k, _ in x['values']]}"
+        for (k, ci), (_, cm) in zip(shape["values"], x["values"]):
+            if not _cell_eq(ci, cm):
+                return f"key {k}: implementation {ci!r} model {cm!r}"
+        return None
+    if x["kind"] == "scalar":
+        if shape["type"] != "scalar":
+            return f"implementation returns a {shape['type']}, model: the single entry (.iloc[0])"
+        if x["value"] is None or not _cell_eq(shape["value"], x["value"]):
+            return f"implementation {shape['value']!r} model {x['value']!r}"
+        return None
+    return f"model: {x['kind']}"
 
 
 def _cell_eq(ci, cm):
@@ -445,6 +553,12 @@ def compare(case, out, model):
         if (out["control_levels"] or []) != model["control_levels"]:
             v.append((f"{PID}/MetricFrame/control_levels/names-differ",
                       f"{out['control_levels']} vs model {model['control_levels']}", "feature naming", "property"))
+        for obs, idxn in (("by_group", model["control_levels"] + model["sensitive_levels"]),
+                          ("overall", model["control_levels"])):
+            dmsg = _shape_diff(case, obs, out["shapes"][obs], model["extracted_" + obs], idxn)
+            if dmsg:
+                v.append((f"{PID}/MetricFrame/{obs}/extract-result-differs-from-model", dmsg,
+                          f"mf.{obs} equals Disagg_ext.extract_result of Disagg.mf_{obs}", "property"))
         want_idx = model["control_levels"] + model["sensitive_levels"]
         if out["by_group_index_names"] != want_idx:
             v.append((f"{PID}/MetricFrame/by_group/index-names-differ",
@@ -472,7 +586,8 @@ def tags(case, out, model):
             f"params:{max(len(m['params']) for m in case['metrics'])}",
             f"empty-intersections:{min(nempty, 5)}{'+' if nempty >= 5 else ''}",
             f"single-member-groups:{min(single, 5)}{'+' if single >= 5 else ''}",
-            f"sf-container:{case['sf_container']}"] + [f"metric:{m['kind']}" for m in case["metrics"]]
+            f"sf-container:{case['sf_container']}", f"by_group-shape:{out['shapes']['by_group']['type'][:14]}",
+            f"overall-shape:{out['shapes']['overall']['type'][:14]}"] + [f"metric:{m['kind']}" for m in case["metrics"]]
 
 
 def nontrivial(case, out, model):
